@@ -159,8 +159,42 @@ def check_legendre(res, facts):
                 rule.ok(key, "x^((p-1)/2): zero/one/other -> Zero/QR/QNR", fn.loc)
         else:
             names = [t["f"].get("name") for _, t in fn.calls()]
-            if names[:2] == ["norm", "legendre"] or ("norm" in names and "legendre" in names):
-                rule.ok(key, "legendre(norm(x))", fn.loc)
+            ret = DF.expr(fn, {"c": 0}, depth=20)
+            want = ("call", "legendre", (("call", "norm", (("arg", 1, ()),), (), ret[2][0][4] if isinstance(ret, tuple) and ret[0] == "call" and ret[2] and isinstance(ret[2][0], tuple) and len(ret[2][0]) > 4 else ""),), (), ret[4] if isinstance(ret, tuple) and len(ret) > 4 else "")
+            # all definitions of the return value
+            outs = []
+            for d in fn.defs().get(0, []):
+                if d[2] == "call":
+                    t_ = d[3]
+                    outs.append((d[0], t_["f"].get("name"), tuple(DF.expr(fn, a, depth=20) for a in t_["args"])))
+                elif d[2] == "assign" and d[3]["r"]["k"] == "use":
+                    e_ = DF.expr(fn, d[3]["r"]["o"], depth=20)
+                    outs.append((d[0], e_[1] if isinstance(e_, tuple) and e_[0] == "call" else "?", e_[2] if isinstance(e_, tuple) and e_[0] == "call" else ()))
+            cd = DF.control_deps(fn)
+
+            def guarded_by_zero_tests(bb, coords):
+                seen, st, txt = set(), [bb], ""
+                while st:
+                    x = st.pop()
+                    for (sw, succ) in cd.get(x, ()):
+                        if sw not in seen:
+                            seen.add(sw)
+                            st.append(sw)
+                            txt += DF.show(DF.expr(fn, fn.bbs[sw]["t"]["o"], depth=20)) + ";"
+                return all(("is_zero(arg1.%s)" % c) in txt for c in coords)
+            is_cubic = "cubic" in fn.id
+            all_ok = bool(outs)
+            for bb, nm, args in outs:
+                a0 = args[0] if args else None
+                if nm == "legendre" and isinstance(a0, tuple) and a0[0] == "call" and a0[1] == "norm" and a0[2] == (("arg", 1, ()),):
+                    continue
+                if is_cubic and nm == "legendre" and a0 == ("arg", 1, ("c0",)) and guarded_by_zero_tests(bb, ("c1", "c2")):
+                    continue      # N(a) = a^3 for a in the base field, and a^3 is a square iff a is
+                all_ok = False
+            if ret == want or (all_ok and len(outs) > 1):
+                rule.ok(key, "legendre(norm(x)) on every path" + (" (base-field shortcut legendre(c0) under c1 = c2 = 0 is sound in a cubic extension)" if ret != want else ""), fn.loc)
+            elif "norm" in names and "legendre" in names:
+                rule.bad(key, "the Legendre symbol is legendre(norm(x)) only on some paths (result is %s): a shortcut such as c0.legendre() for elements of the base field is wrong in a quadratic extension, where every base-field element is a square" % DF.show(ret)[:120], fn.loc)
             else:
                 rule.bad(key, "extension-field Legendre symbol does not go through the norm (calls: %s)" % names, fn.loc)
 
